@@ -662,6 +662,17 @@ theorem deleted_pipe_quiesces_witness :
     (step cfgNow st1 (.wdone 0)).isNone = true ∧ allIdle st1 = true ∧ st1.dest = [] := by
   decide
 
+/-! ### deletion and re-creation under one name (finding F74) -/
+
+/-- **F74 repaired** (84f34ca): `DeletePipe` runs the deleted pipe's clean-up (cancel, removal of the positions file) itself,
+before it acknowledges, and `saveState` refuses for a deleted pipe — so once `DeletePipe` has returned the positions file is
+gone for good and a pipe created under the same name afterwards starts from nothing. The LTS has one incarnation per name;
+this obligation pins the two regenerated facts (one-sided: it breaks if either is lost); the behaviour is the harness' section
+`lifecycle` (parked, free-running, escaped names, churn). -/
+theorem f74_window_closed :
+    Generated.C10.deleteCleansUpBeforeAcknowledging = true ∧ Generated.C10.saveStateRefusesDeletedPipe = true := by
+  decide
+
 /-! ### record sizes (finding F52) -/
 
 theorem varintLen_mono (a b : Nat) (h : a ≤ b) : varintLen a ≤ varintLen b := by
